@@ -130,7 +130,7 @@ func runC04(c *core.Ctx) {
 		key := key16(r)
 		major := byte(0)
 		if r.Chance(1, 8) {
-			major = byte(r.Intn(4))
+			major = mj(byte(r.Intn(4)))
 		}
 		switch i % 4 {
 		case 0:
